@@ -62,5 +62,6 @@ def main (args : List String) : IO UInt32 := do
   let st0 : St := { clears1Hit := !(args.contains "--pinned-read") }
   let st ← loop stdin st0 1
   let kinds := ",".intercalate (st.kinds.toList.map (fun p => s!"\"{p.1}\":{p.2}"))
-  IO.println s!"SUMMARY checked={st.checked} mismatches={st.mismatches} known={st.known} kinds=\{{kinds}}"
-  return (if st.mismatches == 0 then 0 else 1)
+  for d in st.specDiffs do IO.println d
+  IO.println s!"SUMMARY specchecked={st.specChecked} specdiffs={st.specDiffs.length} checked={st.checked} mismatches={st.mismatches} known={st.known} kinds=\{{kinds}}"
+  return (if st.mismatches == 0 ∧ st.specDiffs.isEmpty then 0 else 1)
